@@ -77,7 +77,7 @@ def fold_cell(proj, cell, weights="opaque", post=None, below_threshold=False, n_
 def below_threshold_hook(ev, fv, args, kwargs):
     if fv.finfo.name == "is_below_pair_threshold":
         return True
-    return NotImplemented
+    return P._provenance(ev, fv, args, kwargs)
 
 
 _WORK = {}
